@@ -184,8 +184,10 @@ class PreemptivePriorities(O.Monitor):
             if isinf(nd.c) or nd.slotted:
                 continue
             cs = O.customers(nd)
-            serving = [i for i in cs if O.live(nd, i)]
+            serving = [i for i in cs if O.live(nd, i) and not getattr(i.server, "offduty", False) and not i.is_blocked]
             waiting = [i for i in cs if not O.live(nd, i)]
+            if any(O.live(nd, i) and getattr(i.server, "offduty", False) for i in cs):
+                self.activity["states_with_overtime_service"] = self.activity.get("states_with_overtime_service", 0) + 1
             if serving and waiting:
                 worst = max(i.priority_class for i in serving)
                 best_w = min(i.priority_class for i in waiting)
